@@ -511,7 +511,9 @@ func c19(c *core.Check) {
 				continue
 			}
 			bad := ""
-			after := rules.ReachableFrom(g.Block(), func(b *ssa.BasicBlock) bool { return b == al.Block() && al.Block() != of.Blocks[0] && rules.InCycle(al.Block()) })
+			after := rules.ReachableFrom(g.Block(), func(b *ssa.BasicBlock) bool {
+				return b == al.Block() && al.Block() != of.Blocks[0] && rules.InCycle(al.Block())
+			})
 			for _, st := range rules.StoresTo(al) {
 				if st.Parent() != of {
 					// stores inside closures: only allowed if the closure is not the worker or its children
@@ -740,12 +742,12 @@ func elementField(v ssa.Value) string {
 // ---- path evaluation
 
 type pathEval struct {
-	path  []*ssa.BasicBlock
-	pred  map[*ssa.BasicBlock]*ssa.BasicBlock
-	facts map[ssa.Value]bool // value -> asserted nil (true) / non-nil (false)
+	path       []*ssa.BasicBlock
+	pred       map[*ssa.BasicBlock]*ssa.BasicBlock
+	facts      map[ssa.Value]bool // value -> asserted nil (true) / non-nil (false)
 	infeasible bool
-	calls []ssa.CallInstruction
-	sends []*ssa.Send
+	calls      []ssa.CallInstruction
+	sends      []*ssa.Send
 }
 
 func evalPath(p []*ssa.BasicBlock) *pathEval {
